@@ -337,7 +337,8 @@ func (c *SpecCtx) bin(n *EBin) TV {
 		}
 		sw := uint(64)
 		if wa, _, ok := widthOf(a.T); ok {
-			sw = wa
+			// a typed left operand shifts like the Go operator: inside its width, wrapping
+			return TV{Sc{wrapTo(mul(x, c.e.pow2Term(y, wa)), a.T)}, a.T}
 		}
 		return TV{Sc{mul(x, c.e.pow2Term(y, sw))}, mathInt}
 	case ">>":
